@@ -112,7 +112,7 @@ def run_property(ctx, prop, rule, quick, thorough):
         known_probe={c: (c in seen) for c in known},
         assumptions=ASSUMPTIONS, trusted_extra=TRUSTED_EXTRA,
         notes=["event lists: %d; failing histories are classified by the earliest KnownClass marker observed in the implementation's own trace "
-               "(double-vote, stale-vote-counted, ack-from-diverged-log, old-term-commit); a failure the model does not predict is never classified as known" % n],
+               "(double-vote, stale-vote-counted, ack-from-diverged-log, old-term-commit, ack-below-voted-term); a failure the model does not predict is never classified as known" % n],
     )
 
 
